@@ -11,6 +11,10 @@ consumed per generator (1-4, then return => a fresh generator has to be started 
 processing time per request, yielded timeouts for the following request (wait again / return / raise on expiry),
 exceptions (high-level server only: the low-level server documents nothing about them), the handler ending with
 asyncio.CancelledError (both servers: supported, the server keeps running), malformed datagrams.
+History: in a third of the faulty runs serving is stopped once at a quiescent moment (low level: the serve() task is
+cancelled; high level: shutdown()), datagrams reach the socket while nobody serves, and the SAME server object serves
+again; what arrived in between and afterwards must be delivered exactly once, in order (latency counted from the
+moment serving resumed).
 The documented "generator returns before its first yield => datagram discarded" case is never generated.
 
 Oracle clauses (violation keys ``C16/<harness>/<clause>[/<site>]``):
@@ -48,7 +52,7 @@ RULE = (
     "per run: 2-4 client addresses, 3-14 scripted datagrams (valid / undecodable) with inter-arrival gaps {0(burst),1,2,8,32}/64 s, "
     "each optionally held back 1-3 loop iterations, plus up to 3 reactive datagrams per client injected when a handler finishes a "
     "request (same task step or 1-3 iterations later, to the same or another client); handler shape per client: requests per generator "
-    "1-4, processing sleeps {0,2,8,32}/64 s, yielded timeouts {None,4,16}/64 s with wait-again/return/raise, handler exceptions "
+    "1-4, processing sleeps {0,2,8,32}/64 s, yielded timeouts {None, 0, 1/1024, 4/64, 16/64} s with wait-again/return/raise, handler exceptions "
     "(high-level server), handler raising asyncio.CancelledError after request r (both servers), parse errors caught or re-raised; selector hold/reorder/spurious readiness. "
     "Non-trivial run = a fault kind fired and >=1 request handled."
 )
@@ -72,7 +76,7 @@ PORT = 5016
 G = 1.0 / 64
 GAPS = (0, 0, 1, 2, 8, 32, 0, 1)
 SLEEPS = (0.0, 2 * G, 8 * G, 32 * G)
-TIMEOUTS = (None, 4 * G, 16 * G)
+TIMEOUTS = (None, 4 * G, 16 * G, 0.0, G / 16)  # 0.0 = poll ("only if a datagram is already queued")
 
 
 class HandlerBoom(Exception):
@@ -87,7 +91,7 @@ def _gen_client(world: World, k: int, low: bool, calm: bool) -> dict:
         "addr": (f"10.0.0.{k + 1}", 6000 + k),
         "gen_lens": [1 + world.choose("genlen", 4) for _ in range(6)],
         "sleeps": [world.choose("sleep", 4) for _ in range(n_items)],
-        "timeouts": [world.choose("tmo", 3) for _ in range(n_items)],
+        "timeouts": [world.choose("tmo", len(TIMEOUTS)) for _ in range(n_items)],
         "tmo_mode": world.choose("tmo_mode", 2 if (calm or low) else 3),  # 0 wait again, 1 return, 2 re-raise TimeoutError
         "err_mode": 0 if (calm or low) else world.choose("err_mode", 2),  # parse error: 0 catch, 1 re-raise
         "raise_at": 0 if (calm or low) else world.choose("raise_at", 8),  # 0 never; else raise after request raise_at-1
@@ -112,7 +116,17 @@ def _gen(world: World, low: bool) -> dict:
         bad = (not calm) and world.chance("bad", 1, 8)
         hold = 0 if calm else world.pick("hold", (0, 0, 0, 1, 2, 3))
         arrivals.append({"t": t, "k": k, "bad": bad, "hold": hold})
-    return {"calm": calm, "low": low, "clients": clients, "arrivals": arrivals}
+    # history: serving stopped while everything delivered so far has been handled (low level: the serve() task is
+    # cancelled; high level: shutdown()), datagrams keep reaching the socket while nobody serves, then the SAME
+    # server object serves again (the high-level server keeps its listeners between serve_forever() calls too)
+    pause = None
+    if not calm and world.chance("pause", 1, 3):
+        pause = {
+            "t": world.pick("pause_t", [a["t"] for a in arrivals]) + world.choose("pause_off", 3),
+            "gap": world.pick("pause_gap", (0, 1, 2, 8, 32)),
+            "dgrams": [world.choose("pause_who", nclients) for _ in range(world.choose("pause_n", 4))],
+        }
+    return {"calm": calm, "low": low, "clients": clients, "arrivals": arrivals, "pause": pause}
 
 
 # ------------------------------------------------------------------------------------------------ instrumentation
@@ -163,6 +177,8 @@ class Ctx:
         self.sock = None  # the server's SimSocket
         self.staged: list[list] = []  # [iterations left, client, payload]
         self.stopping = False
+        self.pausing = False
+        self.pauses: list[tuple[int, float]] = []  # (len(net.dgram_log) when serving stopped, time serving resumed)
         self.violation: Violation | None = None
         self.scripted_left = len(sc["arrivals"])
 
@@ -248,7 +264,7 @@ class Ctx:
                     item = ("err",)
                     caught = exc
                 except BaseException as exc:
-                    if not self.stopping:
+                    if not (self.stopping or self.pausing):
                         self.flag("fifo", f"{cl.label}: unexpected {type(exc).__name__}({exc}) thrown into the handler", "unexpected-exception")
                     raise
                 else:
@@ -303,9 +319,30 @@ class Ctx:
     def arrival_times(self, cl: Client) -> list[float]:
         return [t for t, src, _dst, _data in self.net.dgram_log if src == cl.addr]
 
+    def service_times(self, cl: Client) -> list[float]:
+        """arrival time, or the time serving resumed for datagrams that reached the socket while nobody served"""
+        out = []
+        for n, (t, src, _dst, _data) in enumerate(self.net.dgram_log):
+            if src == cl.addr:
+                for n_stop, t_resume in self.pauses:
+                    if n >= n_stop:
+                        t = max(t, t_resume)
+                out.append(t)
+        return out
+
+    def quiescent(self) -> bool:
+        """everything that reached the socket so far has been handled completely, nothing is in between"""
+        if self.staged or self.sock.dgram_q:
+            return False
+        for cl in self.clients:
+            n = sum(1 for _t, src, _d, _p in self.net.dgram_log if src == cl.addr)
+            if len(cl.items) != n or any(t is None for t in cl.fin_t):
+                return False
+        return True
+
     def model_finish(self, cl: Client) -> list[float]:
         """single-server FIFO model of this client alone"""
-        arr = self.arrival_times(cl)
+        arr = self.service_times(cl)
         out: list[float] = []
         prev = 0.0
         for i, a in enumerate(arr):
@@ -336,14 +373,14 @@ def _run(world: World, low: bool) -> None:
     net = SimNet(world)
     backend = SimAsyncIOBackend(net)
     ctx = Ctx(world, net, sc, name)
-    world.notes.update(clients=[{k: v for k, v in c.items() if k != "react"} | {"react": {str(i): v for i, v in c["react"].items()}} for c in sc["clients"]], arrivals=sc["arrivals"], calm=sc["calm"])
+    world.notes.update(pause=sc["pause"], clients=[{k: v for k, v in c.items() if k != "react"} | {"react": {str(i): v for i, v in c["react"].items()}} for c in sc["clients"]], arrivals=sc["arrivals"], calm=sc["calm"])
     world.iteration_hooks.append(ctx.hook)
 
     def scripted(a: dict) -> None:
         ctx.scripted_left -= 1
         ctx.arrive(ctx.clients[a["k"]], a["bad"], a["hold"])
 
-    async def drive(serve_task: asyncio.Task) -> None:
+    async def drive(serve_task: asyncio.Task, start, stop) -> asyncio.Task:
         ctx.sock = net.bound[(HOST, PORT)]
         base = world.now
         t_last = base
@@ -352,6 +389,31 @@ def _run(world: World, low: bool) -> None:
             t_last = max(t_last, base + a["t"] * G)
         # generous bound for the wait only; the per-request bound is the latency clause below
         budget = sum(SLEEPS[s] for c in sc["clients"] for s in c["sleeps"]) + 20.0
+        pause = sc["pause"]
+        if pause is not None:
+            await asyncio.sleep(max(0.0, base + pause["t"] * G - world.now))
+            while not ctx.quiescent() and world.now < t_last + budget and not serve_task.done() and ctx.violation is None:
+                await asyncio.sleep(G)
+            if ctx.quiescent() and not serve_task.done() and ctx.violation is None:
+                # stop serving at a moment where nothing is in flight: whatever reaches the socket from now on has to
+                # be delivered by the next serving period
+                world.fault("cancel_at_time")
+                world.probe("serve_again")
+                n_stop = len(net.dgram_log)
+                t_stop = world.now
+                world.log("pause", name, n_stop)
+                ctx.pausing = True
+                await stop(serve_task)
+                ctx.pausing = False
+                if len(net.dgram_log) != n_stop or world.now != t_stop:
+                    raise HarnessError("a datagram arrived / time passed while serving was being stopped")
+                for k in pause["dgrams"]:
+                    ctx.arrive(ctx.clients[k], False, 0)
+                if pause["gap"]:
+                    await asyncio.sleep(pause["gap"] * G)
+                serve_task = await start()
+                ctx.pauses.append((n_stop, world.now))
+                world.log("resume", name, len(net.dgram_log))
         while not ctx.all_handled() and world.now < t_last + budget and not serve_task.done() and ctx.violation is None:
             await asyncio.sleep(0.25)
         await settle(world, 8)
@@ -360,13 +422,15 @@ def _run(world: World, low: bool) -> None:
             ctx.flag("server-up", f"the server stopped by itself during the workload: {type(exc).__name__}: {exc}", type(exc).__name__)
         ctx.stopping = True
         world.log("stopping")
+        return serve_task
 
     async def amain_high() -> None:
         loop = asyncio.get_running_loop()
         if not sc["calm"]:
             swarm_selector(world, loop.sim_selector)
         server = AsyncUDPNetworkServer(HOST, PORT, DatagramProtocol(StringLineSerializer()), HighHandler(ctx), backend=backend)
-        async with server:
+
+        async def start() -> asyncio.Task:
             up = asyncio.Event()
             task = asyncio.create_task(server.serve_forever(is_up_event=up), name="c16-serve")
             waiter = asyncio.create_task(up.wait(), name="c16-up")
@@ -374,9 +438,15 @@ def _run(world: World, low: bool) -> None:
             if not up.is_set():
                 waiter.cancel()
                 raise HarnessError(f"server did not start: {task.exception()!r}")
-            await drive(task)
+            return task
+
+        async def stop(task: asyncio.Task) -> None:
             await server.shutdown()
             await asyncio.gather(task, return_exceptions=True)
+
+        async with server:
+            task = await drive(await start(), start, stop)
+            await stop(task)
 
     async def amain_low() -> None:
         loop = asyncio.get_running_loop()
@@ -393,11 +463,17 @@ def _run(world: World, low: bool) -> None:
 
             return ctx.consume(cl, send)
 
-        task = asyncio.create_task(server.serve(cb, None), name="c16-serve")
-        await asyncio.sleep(0)
-        await drive(task)
-        task.cancel()
-        await asyncio.gather(task, return_exceptions=True)
+        async def start() -> asyncio.Task:
+            task = asyncio.create_task(server.serve(cb, None), name="c16-serve")
+            await asyncio.sleep(0)
+            return task
+
+        async def stop(task: asyncio.Task) -> None:
+            task.cancel()
+            await asyncio.gather(task, return_exceptions=True)
+
+        task = await drive(await start(), start, stop)
+        await stop(task)
         await server.aclose()
 
     with sim_sockets(net):
